@@ -290,6 +290,7 @@ impl Check for C20 {
         }
         cleanup(
             Outcome::pass(nontrivial, key)
+                .readable(description.clone())
                 .label(if external { "external" } else { "strong" })
                 .label(format!("lp={}", lps.len().min(5)))
                 .label(format!("dir-argument={has_dir}"))
@@ -454,6 +455,7 @@ impl Check for Swap {
             return Outcome::fail("unrequested-direction", format!("C20: problems of a direction that was not requested\n{description}"));
         }
         Outcome::pass(differ && !ab.is_empty(), hash64(&description))
+            .readable(description.clone())
             .label(match case {
                 SwapCase::Strong { .. } => "strong",
                 SwapCase::External { .. } => "external",
